@@ -251,6 +251,8 @@ class Gen:
             prods = ["cmp", "cmp", "logic", "not", "leaf", "any_all", "select", "idconv"]
         elif is_vec(t):
             prods = ["varith", "cons", "vbuiltin", "select", "leaf", "leaf", "vcmp" if t[2] == "bool" else "varith", "matvec" if t[2] == "f32" else "cons"]
+            if t[2] in ("i32", "u32") and self.o.get("vbitcast", True):
+                prods.append("vbitcast")
         else:
             prods = ["cons", "leaf", "leaf", "call"]
         p = rng.choice(prods)
@@ -336,6 +338,10 @@ class Gen:
         if p == "any_all":
             vt = ["vec", rng.range(2, 4), "bool"]
             return {"e": "builtin", "f": rng.choice(["any", "all"]), "args": [self.expr(env, vt, d)]}
+        if p == "vbitcast":
+            # bitcast between integer vectors of one width; the operand is often a swizzle (an inline-typed vector)
+            src = ["vec", t[1], "u32" if t[2] == "i32" else "i32"]
+            return {"e": "bitcast", "t": t, "a": self.expr(env, src, d if rng.chance(1, 2) else 0)}
         if p == "varith":
             if t[2] == "bool":
                 return self.expr(env, t, 0)
@@ -998,7 +1004,7 @@ def render_expr(e):
     if k == "conv":
         return "%s(%s)" % (e["t"], render_expr(e["a"]))
     if k == "bitcast":
-        return "bitcast<%s>(%s)" % (e["t"], render_expr(e["a"]))
+        return "bitcast<%s>(%s)" % (tstr(e["t"]), render_expr(e["a"]))
     if k == "addr":
         return "(&%s)" % render_expr(e["a"])
     if k == "deref":
